@@ -295,6 +295,28 @@ pub fn run_c13(tier: Tier) -> i32 {
             }
         }
     }
+    // (round 8) a typed tuple list answered with MORE frames than commands: an error, or the i-th result from the
+    // i-th frame - never results taken from the trailing frames
+    {
+        use mpd_client::commands::CommandList as _;
+        let frame = |i: usize| crate::props::c12::make_frames(&[crate::mpdref::wire::AFrame::new(&[("echo", &format!("probe {i}"))])], false).remove(0);
+        for extra in 1..=3usize {
+            let frames: Vec<_> = (0..2 + extra).map(frame).collect();
+            cov.evaluations += 1;
+            if let Ok(Ok((a, b))) = catch(|| (Probe(0), Probe(1)).responses(frames)) {
+                if a != "probe 0" || b != "probe 1" {
+                    viol.push(Violation::new("C13/pairing", format!("a tuple list of 2 commands answered with {} frames yields ({a:?}, {b:?}): results are not taken from the frames of their own commands", 2 + extra), json!({"kind": "tuple-surplus", "extra": extra})));
+                }
+            }
+            let frames: Vec<_> = (0..3 + extra).map(frame).collect();
+            cov.evaluations += 1;
+            if let Ok(Ok((a, b, c3))) = catch(|| (Probe(0), Probe(1), Probe(2)).responses(frames)) {
+                if a != "probe 0" || b != "probe 1" || c3 != "probe 2" {
+                    viol.push(Violation::new("C13/pairing", format!("a tuple list of 3 commands answered with {} frames yields ({a:?}, {b:?}, {c3:?})", 3 + extra), json!({"kind": "tuple-surplus", "extra": extra})));
+                }
+            }
+        }
+    }
     // (round 7) a list whose write failed leaves nothing behind that a later list would carry in front of it
     viol.merge(crate::props::c07::failed_send_violations("C13"));
     let (raw_cases, raw_lines) = c13_raw(&mut viol);
@@ -537,8 +559,9 @@ fn c17_grid(tier: Tier) -> Vec<Scenario> {
     v.push(c17_scenario("C17-cover-size20000-limit8192", PicSource::Empty, PicSource::Data(picture(20000), None), 8192, false));
     // raised binary limits (MPD allows up to the output buffer size): chunks far beyond the receive buffer's
     // first doublings, the whole picture in one chunk and in a few (round 6: a cap on unparsed buffered bytes)
-    for (size, limit) in [(65535usize, 65536usize), (65536, 65536), (65537, 65536), (70000, 131072), (150000, 262144), (250000, 100000), (1 << 20, 1 << 19), (3_000_000, 1 << 21)] {
-        if tier == Tier::Quick && size > 300_000 {
+    // (round 8: a "preallocation cap" of 4 MiB applied to the expected size itself) pictures beyond 4 and 16 MiB
+    for (size, limit) in [(65535usize, 65536usize), (65536, 65536), (65537, 65536), (70000, 131072), (150000, 262144), (250000, 100000), (1 << 20, 1 << 19), (3_000_000, 1 << 21), ((4 << 20) + 10, 1 << 20), ((16 << 20) + 3, 1 << 22)] {
+        if tier == Tier::Quick && size > 300_000 && size != (4 << 20) + 10 {
             continue;
         }
         v.push(c17_scenario(&format!("C17-embedded-size{size}-limit{limit}"), PicSource::Data(picture(size), Some("image/jpeg".into())), PicSource::Empty, limit, false));
